@@ -35,6 +35,8 @@ pub fn make_sut(scn: &Value) -> Arc<dyn Sut> {
         "ring_fullsync" => by_n!(n, mk_ring_fullsync),
         "pool_atomic" => by_n!(n, mk_pool_atomic),
         "pool_fullsync" => by_n!(n, mk_pool_fullsync),
+        "pool_atomic_tracked" => by_n!(n, mk_tpool_atomic),
+        "pool_fullsync_tracked" => by_n!(n, mk_tpool_fullsync),
         other => {
             if let Some(s) = crate::cont_suts::make(kind, scn) {
                 s
@@ -293,5 +295,101 @@ impl<A: BoundedOgreAllocator<u64> + Send + Sync, const N: usize> Sut for PoolSut
         }
         bij &= addrs.len() == N;
         json!({"hard": false, "len": ids.len(), "drained": ids, "bij": bij})
+    }
+}
+
+
+// ---------------------------------------------------------------------------------------------
+// pool allocators holding payloads with a destructor (the destructor is a scheduling point and reports to the registry)
+
+use crate::chan_suts::{anomalies_snapshot, drops_snapshot, reset_instruments, Pay, Tracked};
+
+pub struct TrackedPoolSut<A: BoundedOgreAllocator<Tracked> + Send + Sync, const N: usize> {
+    a: A,
+    owned: Mutex<Vec<Vec<(u32, u64)>>>,
+}
+
+fn mk_tpool_atomic<const N: usize>() -> Arc<dyn Sut> {
+    reset_instruments();
+    Arc::new(TrackedPoolSut::<AllocatorAtomicArray<Tracked, N>, N> { a: AllocatorAtomicArray::<Tracked, N>::new(), owned: Mutex::new(vec![vec![]; 16]) })
+}
+fn mk_tpool_fullsync<const N: usize>() -> Arc<dyn Sut> {
+    reset_instruments();
+    Arc::new(TrackedPoolSut::<AllocatorFullSyncArray<Tracked, N>, N> { a: AllocatorFullSyncArray::<Tracked, N>::new(), owned: Mutex::new(vec![vec![]; 16]) })
+}
+
+impl<A: BoundedOgreAllocator<Tracked> + Send + Sync, const N: usize> Sut for TrackedPoolSut<A, N> {
+    fn resolve(&self, t: usize, op: &Value) -> Value {
+        let name = op["op"].as_str().unwrap_or("");
+        if name == "free" || name == "free_ref" {
+            let mut o = self.owned.lock().unwrap();
+            let mine = &mut o[t];
+            if mine.is_empty() {
+                return json!({"op": "nop", "v": 0, "i": 0});
+            }
+            let (id, _v) = if op["last"].as_bool().unwrap_or(false) { mine.pop().unwrap() } else { mine.remove(0) };
+            return json!({"op": if name == "free" { "dealloc_id" } else { "dealloc_ref" }, "v": id, "i": 0});
+        }
+        if name == "alloc" {
+            // with a destructor around, every allocation initialises its slot (a distinct value per allocation)
+            static NEXT: std::sync::atomic::AtomicU64 = std::sync::atomic::AtomicU64::new(1000);
+            return json!({"op": "alloc_with", "v": NEXT.fetch_add(1, std::sync::atomic::Ordering::SeqCst) % 100000, "i": 0});
+        }
+        op.clone()
+    }
+
+    fn exec(&self, ctx: &Ctx, op: &Value) -> Value {
+        match op["op"].as_str().unwrap() {
+            "nop" => json!({"ok": true, "v": 0}),
+            "alloc_with" => {
+                let v = op["v"].as_u64().unwrap();
+                match self.a.alloc_with(|slot| unsafe { std::ptr::write(slot, Tracked::mk(v)) }) {
+                    Some((r, id)) => {
+                        let back = self.a.id_from_ref(r);
+                        self.owned.lock().unwrap()[ctx.t].push((id, v));
+                        json!({"ok": true, "v": id, "bij": back == id && (id as usize) < N})
+                    }
+                    None => json!({"ok": false, "v": 0, "bij": true}),
+                }
+            }
+            "dealloc_id" => {
+                self.a.dealloc_id(op["v"].as_u64().unwrap() as u32);
+                json!({"ok": true, "v": 0})
+            }
+            "dealloc_ref" => {
+                let id = op["v"].as_u64().unwrap() as u32;
+                let r = self.a.ref_from_id(id);
+                self.a.dealloc_ref(r);
+                json!({"ok": true, "v": 0})
+            }
+            other => panic!("tracked pool: unknown op {other}"),
+        }
+    }
+
+    fn finish(&self, _stalled: bool) -> Value {
+        // what is still owned must be alive and carry the value its owner wrote
+        let mut wrong = vec![];
+        for mine in self.owned.lock().unwrap().iter() {
+            for (id, v) in mine.iter() {
+                let r = self.a.ref_from_id(*id);
+                if r.v() != *v {
+                    wrong.push(json!([id, v, r.v()]));
+                }
+            }
+        }
+        let mut ids = vec![];
+        while let Some((_r, id)) = self.a.alloc_ref() {
+            ids.push(id);
+            if ids.len() > 4 * N {
+                break;
+            }
+        }
+        let mut anomalies = anomalies_snapshot();
+        if let Some(a) = anomalies.as_array_mut() {
+            for w in wrong {
+                a.push(json!(format!("slot still owned holds another payload: {w}")));
+            }
+        }
+        json!({"hard": false, "len": ids.len(), "drained": ids, "bij": true, "anomalies": anomalies, "drops": drops_snapshot()})
     }
 }
